@@ -213,6 +213,7 @@ static e3_cfg c3 = { .nworlds = 2, .ev_name = cv_name, .pre_name = pre_name, .to
 int main(int argc, char **argv) {
     vf_parse_args(argc, argv, "C18");
     vf_world_init(A.mtu, A.wifi, (uint8_t)A.fill);
+    if (A.wifi) vf_rich_platform();      /* the wireless runs: maximal-length machine name, SSID and hardware ID (the largest Hello, the longest scans) */
     build_requests();
     { vf_world_reset(); pev rs0 = ev_reset(0, ST_M1); vf_trace_clear(); drv_linux(&rs0, 0); base_blocks = vf_live_blocks(); base_bytes = vf_live_bytes(); vf_world_reset(); }
     NSCEN = nscen_req() + 4;
